@@ -570,4 +570,45 @@ def conformsB (w : World) (s : Schema) : Bool :=
          | .ok x => conformsVal w e.2 x
          | .error _ => false)
 
+/-! ### the same query object evaluated again over changing data
+
+A query object is built once and evaluated several times; between two evaluations the data is edited (attribute
+assignments with new values, new lists, other or newly created objects; objects may be dropped). The query holds
+no data of its own (`Attribute._apply_mapping_` is `getattr` at evaluation time), so the model of the k-th
+evaluation is `run` on the k-th world: `runSeq` threads the world, `C11_history_independent` says the answers depend
+on the current data only. -/
+
+inductive Edit where
+  /-- `objs[i].n = v` (also an in-place replacement of a list's contents) -/
+  | set (i : Nat) (n : AttrName) (v : Val)
+  /-- a newly created object; it gets the next index -/
+  | new (o : Obj)
+  /-- the last reference to object `i` is dropped (nothing reachable refers to it any more) -/
+  | free (i : Nat)
+  deriving Repr
+
+def setField (fs : List (String × Val)) (n : AttrName) (v : Val) : List (String × Val) :=
+  fs.map fun p => if p.1 == n then (p.1, v) else p
+
+def modifyAt {α} (f : α → α) : List α → Nat → List α
+  | [], _ => []
+  | x :: xs, 0 => f x :: xs
+  | x :: xs, i + 1 => x :: modifyAt f xs i
+
+def applyEdit (w : World) : Edit → World
+  | .set i n v => { w with objs := modifyAt (fun o => { o with fields := setField o.fields n v }) w.objs i }
+  | .new o => { w with objs := w.objs ++ [o] }
+  | .free _ => w
+
+/-- the data after each step (a step is a list of edits made between two evaluations) -/
+def worlds : World → List (List Edit) → List World
+  | w, [] => [w]
+  | w, st :: rest => w :: worlds (st.foldl applyEdit w) rest
+
+/-- evaluate, edit, evaluate again, …: the answers of the successive evaluations of one query object -/
+def runSeq (Q : Quirks) (s : Schema) (dom : List Val) (p : Pat) :
+    World → List (List Edit) → List (Option (List (List Val)))
+  | w, [] => [run w Q s dom p]
+  | w, st :: rest => run w Q s dom p :: runSeq Q s dom p (st.foldl applyEdit w) rest
+
 end KrroodVerif.Match
